@@ -2,6 +2,7 @@ import QuantemModel.Core.Proto
 import QuantemModel.Model.Aberration
 import QuantemModel.Model.AberrationState
 import QuantemModel.Model.AberrationOrder
+import QuantemModel.Model.AberrationGrid
 open Lean QuantemModel QuantemModel.Proto
 open QuantemModel.Generated.Aberration QuantemModel.Aberration
 
@@ -249,6 +250,16 @@ def step (st : Unit) (j : Json) : Unit × Json :=
           | .error _ => none
         let pts ← pairsField j "pts"
         let out := pts.map fun (kx, ky) => lateralShift kx ky lam th c
+        pure (okJson (Json.arr (out.map fun (x, y) => flist [x, y]).toArray))
+    | "surface_grad" =>  -- growth 6: aberration_surface_grad at each pixel (Model/AberrationGrid.lean)
+        let c ← envField j "coefs"
+        let lam ← floatOfJson (← field j "lam")
+        let th := match j.getObjVal? "theta" with
+          | .ok .null => none
+          | .ok v => (floatOfJson v).toOption
+          | .error _ => none
+        let pts ← pairsField j "pts"
+        let out := pts.map fun (kx, ky) => surfaceGradAt kx ky lam th c
         pure (okJson (Json.arr (out.map fun (x, y) => flist [x, y]).toArray))
     | "fit" =>
         let basis ← pairsField j "basis"
